@@ -50,6 +50,7 @@ class Engine:
         self.side_counter: Dict[str, int] = {}
         self.finding_ctx: Optional[str] = None
         self.notes: List[str] = []
+        self.concrete: Optional[dict] = None   # replay mode: name -> z3 value taken from a counter-model
 
     # ------------------------------------------------------------------ paths
     def path_tag(self) -> str:
@@ -121,6 +122,8 @@ class Engine:
     def fresh(self, name: str, sort=None):
         self.fresh_n += 1
         nm = "%s!%d" % (name, self.fresh_n)
+        if self.concrete is not None and nm in self.concrete:
+            return self.concrete[nm]
         if sort is None or (isinstance(sort, str) and sort == "bv"):
             return z3.BitVec(nm, BVW)
         if isinstance(sort, str) and sort == "int":
